@@ -114,7 +114,9 @@ def gen_plan(seed, tier, index=0, avoid=()):
         return {"prop": PROP, "seed": seed, "mode": "A", "cfg": cfg, "steps": steps, "enumerate": True}
     # ---- part B
     h = rng.randint(2, 8) if rng.random() < 0.85 else 1
-    cfg = {"h": h, "w": w, "encoding": enc, "callback": True, "start_row": rng.randrange(h)}
+    # without a callback, input ahead of a report makes the query raise ValueError (allowed); the window
+    # must stay usable: later queries still account for every movement
+    cfg = {"h": h, "w": w, "encoding": enc, "callback": rng.random() < 0.8, "start_row": rng.randrange(h)}
     maxsteps = 25 if tier == "thorough" else 14
     nsteps = rng.choice((2, 3, 4, 6, rng.randint(2, maxsteps)))
     steps = []
@@ -528,7 +530,8 @@ def _exec_b(p, s, res):
     if cfg["start_row"]:
         term.feed("\x1b[%d;1H" % (cfg["start_row"] + 1))
     got_extra = []
-    win = CursorAwareWindow(out_stream=s.out, in_stream=s.inp, extra_bytes_callback=lambda b: got_extra.append(b))
+    win = CursorAwareWindow(out_stream=s.out, in_stream=s.inp,
+                            extra_bytes_callback=(lambda b: got_extra.append(b)) if cfg["callback"] else None)
     if not _enter(win, res):
         return
     base = None           # row where the last render / previous completed query left/saw the cursor
@@ -605,6 +608,15 @@ def _exec_b(p, s, res):
                     _violate(res, "query_hung", si, {"note": "get_cursor_vertical_diff blocked for input with every report delivered"})
                     return
                 except Exception as e:
+                    if isinstance(e, ValueError) and noise_b and not cfg["callback"]:
+                        # input ahead of the report and no callback: ValueError is the documented outcome.  The
+                        # bytes up to and including the report were consumed; the base row is unchanged because
+                        # the query did not complete.
+                        world.probe("no_callback_valueerror")
+                        world.log.add("diff_valueerror", si)
+                        res["reads_per_step"][si] = s.inp.nreads
+                        del s.tty.inq[:]
+                        continue
                     _violate(res, "diff_raised", si, {"exception": "%s: %s" % (type(e).__name__, e)})
                     return
                 finally:
@@ -623,8 +635,10 @@ def _exec_b(p, s, res):
                         world.probe("two_nested_calls")
                 if any(r != 0 for r in nested_returns):
                     _violate(res, "nested_call_nonzero", si, {"nested_returns": list(nested_returns)})
-                if b"".join(got_extra) != noise_b:
+                if cfg["callback"] and b"".join(got_extra) != noise_b:
                     _violate(res, "extra_bytes_wrong", si, {"callback_got": repr(got_extra), "expected": repr(noise_b)})
+                if not cfg["callback"] and noise_b:
+                    _violate(res, "no_valueerror_for_extra", si, {"returned": repr(ret), "extra": st["noise"]})
                 if bytes(s.tty.inq):
                     _violate(res, "unread_input_left", si, {"unread": repr(bytes(s.tty.inq))})
                 if not isinstance(ret, int):
